@@ -129,10 +129,27 @@ fn container_set(sub: &str, thorough: bool) -> Vec<(String, String, Comp, Packag
             }
         }
     }
+    // several content packs (a check that stops at the first pack, or lets the last one decide, dies here)
+    if sub != "c06" || thorough {
+        v.push(("multi2-zstd-sep".into(), "multi2".into(), Comp::Zstd(5), Packaging::NoConcat, false));
+        v.push(("multi2-none-one".into(), "multi2".into(), Comp::None, Packaging::OneFile, false));
+    }
+    // checked blocks above 4 KiB in a file-backed content pack
+    if sub == "c05" || (sub == "c06" && thorough) {
+        v.push(("many-none-sep".into(), "many".into(), Comp::None, Packaging::NoConcat, false));
+        if thorough {
+            v.push(("many-none-one".into(), "many".into(), Comp::None, Packaging::OneFile, false));
+        }
+    }
     // concat of the three separate files
     v.push(("multi-zstd-concat".into(), "multi".into(), Comp::Zstd(5), Packaging::NoConcat, true));
     if thorough {
         v.push(("multi-none-concat".into(), "multi".into(), Comp::None, Packaging::NoConcat, true));
+    }
+    if let Ok(only) = std::env::var("JBKMC_ONLY") {
+        // diagnostic: restrict the set to the containers whose name contains this text
+        v.retain(|c| c.0.contains(&only));
+        return v;
     }
     if sub == "c06" {
         // containers >= 4 KiB (mmap path), directory > 4 KiB
@@ -339,7 +356,13 @@ fn enumerate(sub: &str, thorough: bool, set: &[Loaded]) -> Vec<Case> {
                     }
                 }
                 "c05" => {
+                    let many = l.desc.shape == "many" && !thorough;
                     for pos in 0..n {
+                        if many {
+                            // quick: one bit flip per position (every position still visited)
+                            v.push(Case { container: ci, file: fi, alt: Alt::Xor { pos, mask: 0x01 } });
+                            continue;
+                        }
                         for mask in [0x01u8, 0x80, 0xff] {
                             v.push(Case { container: ci, file: fi, alt: Alt::Xor { pos, mask } });
                         }
@@ -351,7 +374,7 @@ fn enumerate(sub: &str, thorough: bool, set: &[Loaded]) -> Vec<Case> {
                     }
                     let lens: &[usize] = if thorough { &[2, 4, 8, 64] } else { &[4, 64] };
                     for &len in lens {
-                        let step = if thorough { 1 } else { len.max(4) / 4 };
+                        let step = if thorough { 1 } else if many { 64 } else { len.max(4) / 4 };
                         let mut s = 0;
                         while s + len <= n {
                             for val in [0x00u8, 0xff] {
@@ -547,7 +570,12 @@ fn worker(args: &Args) -> ! {
     }));
     let scratch = jbkmc::scratch_dir("fault");
     for idx in from..to.min(cases.len()) {
-        isolate::worker_case(idx, || run_case(&set, &cases[idx], scratch.path(), args.seed, &pristine));
+        isolate::worker_case(idx, || {
+            let t = std::time::Instant::now();
+            let mut v = run_case(&set, &cases[idx], scratch.path(), args.seed, &pristine);
+            v["ms"] = json!(t.elapsed().as_millis() as u64);
+            v
+        });
     }
     std::process::exit(0)
 }
@@ -658,6 +686,13 @@ fn main() {
     } else {
         let workers = std::thread::available_parallelism().map(|x| x.get()).unwrap_or(8);
         isolate::run_all(&run, cases.len(), workers, &|i, f| {
+            if std::env::var("JBKMC_VERBOSE").is_ok() {
+                match &f {
+                    Fate::Done(v) if v["ms"].as_u64().unwrap_or(0) < 200 => {}
+                    Fate::Done(v) => eprintln!("case {i}: slow {} ms", v["ms"]),
+                    _ => eprintln!("case {i}: {f:?}"),
+                }
+            }
             fates.lock().unwrap()[i] = Some(f);
         });
     }
